@@ -27,6 +27,7 @@ mod c15;
 mod c16;
 mod c18;
 mod c19;
+mod c20;
 
 use explore::report::Tier;
 
@@ -79,6 +80,7 @@ fn main() {
         "C16" => c16::run(&args),
         "C18" => c18::run(&args),
         "C19" => c19::run(&args),
+        "C20" => c20::run(&args),
         other => {
             eprintln!("unknown property {other}");
             2
@@ -142,6 +144,7 @@ fn replay(path: &str) -> i32 {
         "C16" => c16::replay(r),
         "C18" => c18::replay(r),
         "C19" => c19::replay(r),
+        "C20" => c20::replay(r),
         other => {
             eprintln!("no replay for property {other}");
             2
